@@ -232,6 +232,49 @@ def main():
             raise Missing("dsl.rs: transactions_to_dsl does not join with a newline")
         return [f'def dslDateFormat : String := "{datefmt}"']
 
+    @group("cascade")
+    def _():
+        # the order in which process_sell tries the identification rules
+        src = read("crates/cgt-core/src/matcher/mod.rs").split("#[cfg(test)]")[0]
+        i = src.find("fn process_sell(")
+        if i < 0:
+            raise Missing("matcher/mod.rs: fn process_sell not found")
+        j = src.find("\n    fn ", i + 10)
+        body = src[i:j if j > 0 else len(src)]
+        calls = [(m.start(), m.group(1)) for m in re.finditer(r"(same_day::match_same_day|bed_and_breakfast::match_bed_and_breakfast|section104::match_section_104)\(", body)]
+        if len(calls) != 3:
+            raise Missing(f"matcher/mod.rs: expected one call of each of the three rules in process_sell, found {[c[1] for c in calls]}")
+        names = [c[1].split("::")[0] for c in sorted(calls)]
+        return ["def matchCascade : List String := [" + ", ".join(lean_str(n) for n in names) + "]"]
+
+    @group("validator")
+    def _():
+        # every `if <expr> <cmp> Decimal::ZERO { result.errors.push(` of validation.rs, by site
+        src = read("crates/cgt-core/src/validation.rs").split("#[cfg(test)]")[0]
+        i = src.find("fn check_trade_fields(")
+        j = src.find("pub fn validate(")
+        if i < 0 or j < 0 or j < i:
+            raise Missing("validation.rs: check_trade_fields / validate not found")
+        pat = re.compile(r"if\s+([\w\.\*]+)\s*(==|!=|<=|>=|<|>)\s*Decimal::ZERO\s*\{\s*result\.errors\.push")
+        rows = [("trade", m.group(1), m.group(2)) for m in pat.finditer(src[i:j])]
+        body = src[j:]
+        arms = list(re.finditer(r"Operation::(Buy|Sell|Split|Unsplit|Dividend|Accumulation|CapReturn)\s*\{", body))
+        if len(arms) != 7:
+            raise Missing(f"validation.rs: expected 7 Operation arms in validate, found {len(arms)}")
+        for k, a in enumerate(arms):
+            seg = body[a.end():arms[k + 1].start() if k + 1 < len(arms) else len(body)]
+            name = a.group(1)
+            m = re.search(r"check_trade_fields\(.*?amount:\s*\*amount,\s*price(?::\s*(\w+))?,.*?fees,?\s*\}", seg, re.S)
+            if m:
+                rows.append((name, "check_trade_fields", m.group(1) or "price"))
+            rows += [(name, x.group(1), x.group(2)) for x in pat.finditer(seg)]
+        n_push = len(re.findall(r"result\.errors\.push", src))
+        n_rows = len([r for r in rows if r[1] != "check_trade_fields"])
+        if n_push != n_rows:
+            raise Missing(f"validation.rs: {n_push} error sites but {n_rows} recognised comparisons")
+        items = ", ".join(f"({lean_str(a)}, {lean_str(b)}, {lean_str(c)})" for a, b, c in rows)
+        return [f"def validatorChecks : List (String × String × String) := [{items}]"]
+
     @group("rsu")
     def _():
         aw = "crates/cgt-converter/src/schwab/awards.rs"
@@ -245,7 +288,7 @@ def main():
         old = open(OUT, encoding="utf-8").read()
     except OSError:
         pass
-    order = ["window", "taxyear", "mcp_year", "disposal_round", "exemptions", "money_round", "pdf_round", "grammar", "writer", "rsu"]
+    order = ["window", "taxyear", "mcp_year", "disposal_round", "exemptions", "money_round", "pdf_round", "grammar", "writer", "validator", "cascade", "rsu"]
     lines = []
     for gname in order:
         if gname in GROUPS:
